@@ -1,7 +1,7 @@
 """Checks decided with spec/Eliot.tla + Trace_Eliot.tla (engine 1): C01 C02 C03 C04 C05 C07 C08 C12(sequential) C13."""
 from engine_eliot import *
 
-ALLF = {"typed", "tb", "task", "finish", "ctx", "run", "alog", "succ", "ext", "remote"}
+ALLF = {"typed", "tb", "task", "finish", "ctx", "run", "alog", "succ", "ext", "remote", "logcall", "preserve"}
 HOST = ALLF | {"hostile"}
 
 # per property: model-checking configs (quick, with thorough overrides), simulation sources, random profiles
@@ -9,7 +9,7 @@ PLAN = {
     "C01": dict(
         mc=[("MC_Core.cfg", {"MaxMsgs": 6}), ("MC_Remote.cfg", {"MaxMsgs": 5})],
         sim=[("MC_Core.cfg", [1], 1, {"MaxActs": 5, "MaxMsgs": 12, "MaxDepth": 4, "MaxBlocks": 4,
-                                       "Feat": '{"finish", "task", "alog", "ctx", "run", "succ", "typed", "tb", "remote", "ext"}'})],
+                                       "Feat": '{"finish", "task", "alog", "ctx", "run", "succ", "typed", "tb", "remote", "ext", "logcall", "preserve"}'})],
         profiles=[dict(feat=ALLF, ndest=1, init=[1], maxlen=40, close=0.8, w_fin_ctx=0.0, shuffle=2),
                   dict(feat=ALLF | {"spawn"}, nctx=3, ndest=2, init=[1, 2], maxlen=40, close=0.8, w_fin_ctx=0.0)]),
     "C02": dict(
